@@ -41,6 +41,7 @@ structure Safe (c : Cfg) (ch : PChain) (h0 : Nat) (evs : List Ev) (n : FNode) : 
   hdrSrc : ∀ k, k ∈ keysH n → Ev.hdr k ∈ evs
   datSrc : ∀ k, k ∈ keysD n → Ev.dat k ∈ evs ∨ (Ev.hdr k ∈ evs ∧ ∃ b, ch k = some b ∧ IsEmpty b)
   sound : ∀ k, h0 < k → k ≤ n.store.height → Delivered ch evs k
+  wm : WmOK n.store
 
 variable {c : Cfg} {ch : PChain} {top h0 : Nat} {evs : List Ev} {n : FNode}
 
@@ -62,7 +63,7 @@ theorem Safe.hs (g : GoodChain c ch top) (hs : Safe c ch h0 evs n) : n.store.hei
 /-- the safety invariant does not mention the seen-sets -/
 theorem Safe.seen (hs : Safe c ch h0 evs n) (sH sD : List Bytes) :
     Safe c ch h0 evs { n with seenH := sH, seenD := sD } :=
-  ⟨hs.alive, hs.ge, hs.low, hs.st, hs.disk, hs.gen, hs.chain, hs.hdrGen, hs.datGen, hs.hdrSrc, hs.datSrc, hs.sound⟩
+  ⟨hs.alive, hs.ge, hs.low, hs.st, hs.disk, hs.gen, hs.chain, hs.hdrGen, hs.datGen, hs.hdrSrc, hs.datSrc, hs.sound, hs.wm⟩
 
 /-- what one loop iteration does on a node satisfying the invariant -/
 theorem applyNext_cases (g : GoodChain c ch top) (hs : Safe c ch h0 evs n) :
@@ -104,7 +105,7 @@ theorem advance_safe (g : GoodChain c ch top) (hs : Safe c ch h0 evs n) {b : Blo
     Safe c ch h0 evs (advance n b.sh d) := by
   have hst := stateAfter_eq g hs hb hd
   have hh := advance_height n b.sh d
-  refine ⟨hs.alive, ?_, ?_, ?_, ?_, ?_, ?_, ?_, ?_, ?_, ?_, ?_⟩
+  refine ⟨hs.alive, ?_, ?_, ?_, ?_, ?_, ?_, ?_, ?_, ?_, ?_, ?_, hs.wm.kv (advance_kv _ _ _)⟩
   · rw [hh]; have := hs.ge; omega
   · rw [hh]; have := hs.low; omega
   · rw [hh]; exact hst
@@ -137,12 +138,13 @@ theorem advance_safe (g : GoodChain c ch top) (hs : Safe c ch h0 evs n) {b : Blo
 
 /-! ## the durable writes of a step -/
 
-/-- writes of applying blocks `h+1 … h'` of the chain, three per block, in height order -/
+/-- writes of applying blocks `h+1 … h'` of the chain, three per block, in height order; per block: the block,
+then the state that says it was applied, then the chain height -/
 inductive AppliedWrites (c : Cfg) (ch : PChain) : Nat → List SW → Nat → Prop
   | nil (h : Nat) : AppliedWrites c ch h [] h
   | cons {h h' : Nat} {ws : List SW} {b sb : Block} : ch (h + 1) = some b → SameBlock b sb →
       AppliedWrites c ch (h + 1) ws h' →
-      AppliedWrites c ch h (.updateState (stateAt c ch (h + 1)) :: .saveBlock (h + 1) sb :: .setHeight (h + 1) :: ws) h'
+      AppliedWrites c ch h (.saveBlock (h + 1) sb :: .updateState (stateAt c ch (h + 1)) :: .setHeight (h + 1) :: ws) h'
 
 theorem trySync_acc : ∀ (fuel : Nat) (n : FNode) (ws : List SW),
     trySync fuel n ws = ((trySync fuel n []).1, ws ++ (trySync fuel n []).2) := by
@@ -279,7 +281,7 @@ theorem cacheH_safe (g : GoodChain c ch top) (hs : Safe c ch h0 evs n) {k : Nat}
   have hnew : Ev.hdr k ∈ evs ++ [Ev.hdr k] := by simp
   rcases cacheH_cases g hb n with ⟨he, d, hd, e⟩ | ⟨he, e⟩
   · rw [e]
-    refine ⟨hs'.alive, hs'.ge, hs'.low, hs'.st, hs'.disk, hs'.gen, hs'.chain, ?_, ?_, ?_, ?_, hs'.sound⟩
+    refine ⟨hs'.alive, hs'.ge, hs'.low, hs'.st, hs'.disk, hs'.gen, hs'.chain, ?_, ?_, ?_, ?_, hs'.sound, hs'.wm⟩
     · intro j sh hm
       simp only [List.mem_cons, Prod.mk.injEq] at hm
       rcases hm with ⟨rfl, rfl⟩ | hm
@@ -301,7 +303,7 @@ theorem cacheH_safe (g : GoodChain c ch top) (hs : Safe c ch h0 evs n) {k : Nat}
       · exact Or.inr ⟨hnew, b, hb, he⟩
       · exact hs'.datSrc j hj
   · rw [e]
-    refine ⟨hs'.alive, hs'.ge, hs'.low, hs'.st, hs'.disk, hs'.gen, hs'.chain, ?_, hs'.datGen, ?_, hs'.datSrc, hs'.sound⟩
+    refine ⟨hs'.alive, hs'.ge, hs'.low, hs'.st, hs'.disk, hs'.gen, hs'.chain, ?_, hs'.datGen, ?_, hs'.datSrc, hs'.sound, hs'.wm⟩
     · intro j sh hm
       simp only [List.mem_cons, Prod.mk.injEq] at hm
       rcases hm with ⟨rfl, rfl⟩ | hm
@@ -317,7 +319,7 @@ theorem cacheD_safe (g : GoodChain c ch top) (hs : Safe c ch h0 evs n) {k : Nat}
     Safe c ch h0 (evs ++ [Ev.dat k]) (cacheD n k b.data) := by
   have hs' := hs.mono (evs' := evs ++ [Ev.dat k]) (fun _ => mem_append_single)
   have hnew : Ev.dat k ∈ evs ++ [Ev.dat k] := by simp
-  refine ⟨hs'.alive, hs'.ge, hs'.low, hs'.st, hs'.disk, hs'.gen, hs'.chain, hs'.hdrGen, ?_, hs'.hdrSrc, ?_, hs'.sound⟩
+  refine ⟨hs'.alive, hs'.ge, hs'.low, hs'.st, hs'.disk, hs'.gen, hs'.chain, hs'.hdrGen, ?_, hs'.hdrSrc, ?_, hs'.sound, hs'.wm⟩
   · intro j d' hm
     simp only [cacheD, List.mem_cons, Prod.mk.injEq] at hm
     rcases hm with ⟨rfl, rfl⟩ | hm
